@@ -20,6 +20,41 @@
 //! destination). Any other statement in these loops is an extraction failure:
 //! the Lean model would not know what it does.
 //!
+//! The same target also reads the decisions that surround the loops, so that the Lean model has
+//! no hand-written copy of them:
+//!
+//! * `call_drop_of` / `call_clone_function`, statement by statement, as `RotoV.Glue.CStmt`
+//!   (an `if` becomes `ifc <condition> <number of statements of its body>` followed by the body):
+//! ```text
+//! let size = self.layout_of(ty).unwrap().size() as u32;              letSize
+//! if !self.needs_drop(ty) { … } / if !self.needs_clone(ty) { … }     ifc .notNeeds n
+//! if size == 0 { … } / if size > 0 { … }                             ifc .sizeZero n / ifc .sizePos n
+//! if let Some(f) = self.get_runtime_drop(ty) { … }   (or _clone)     ifc .hasRuntime n
+//! return;                                                            ret
+//! self.emit_memcpy(to.into(), from.into(), size);                    memcpy
+//! self.emit(Instruction::Drop { var: var.clone(), drop: Some(drop) });   runtime
+//! self.emit_clone(to.into(), from.into(), clone_fn);                 runtime
+//! self.emit(Instruction::Call { …, func: format!("::generated::drop_{type_id}").into(), args: vec![var], return_ptr: None });   callGen
+//! self.emit(Instruction::Call { …, func: format!("::generated::clone_{type_id}").into(), args: vec![from.clone().into()], return_ptr: Some(to) });   callGen
+//! self.ctx.drops_to_generate.push_back(ty); (or clones_)             enqueue
+//! let type_id = ty.type_id();                                        (no effect, skipped)
+//! ```
+//!   Tolerated, because they change nothing that is emitted: the runtime lookup written as
+//!   `match self.get_runtime_drop(ty) { Some(x) => { … } None => {} }`, any name for the bound
+//!   function (the `Drop` / `emit_clone` statement must use that name), the name of the generated
+//!   function built in a local first or by a free helper `fn h(ty: TyRef) -> String` of the same
+//!   file (`name_template` evaluates these to `::generated::drop_{type_id}` /
+//!   `::generated::clone_{type_id}`; `generate_drop` / `generate_clone` must give the function
+//!   they generate the same name).
+//! * the arms of `needs_drop` / `needs_clone` (`match ty { … }`) as `(KPat, NeedArm)` pairs in
+//!   source order: `false` → `.no`, `true` → `.yes`, `fields.iter().any(|&(_, t)| self.needs_X(t))`
+//!   → `.anyField .X`, `variants.iter().flat_map(|v| &v.1).any(|&t| self.needs_X(t))` →
+//!   `.anyVariantField .X`, the `movability()` / `matches!(m, Movability::CloneDrop(..))` block →
+//!   `.cloneDrop`;
+//! * the type kinds for which `get_runtime_drop` / `get_runtime_clone` look up a registered type
+//!   (`Some(…)` arms of their `match ty`) and which function of the `CloneDrop` pair they return.
+//! Anything else in these functions is an extraction failure.
+//!
 //! `listown` → `Generated/ListOwn.lean`: every function of `impl ErasedList`
 //! (`src/value/list.rs`) that receives an element by raw pointer (`NonNull<T>`), as a list of
 //! `RotoV.ListOwn.OStmt` in source order, and the function each script-visible list method
@@ -187,6 +222,446 @@ fn field_loop(file: &syn::File, fname: &str, is_enum: bool) -> Result<(Vec<Strin
     Ok((pre, steps))
 }
 
+// -- call_drop_of / call_clone_function ---------------------------------------------------------
+
+fn is_hook(st: &syn::Stmt) -> bool {
+    norm(st).starts_with("#[cfg(feature=\"verif-hooks\")]")
+}
+
+/// What a name-building expression of the glue functions evaluates to, as a template:
+/// `format!("::generated::drop_{type_id}")` with `let type_id = ty.type_id();` in scope, a local
+/// bound to such an expression, or a call `helper(ty)` of a free function of the same file whose
+/// body is such an expression.
+fn name_template(file: &syn::File, expr: &str, env: &[(String, String)], depth: u32) -> Result<String, String> {
+    if depth > 4 {
+        return Err(format!("name expression `{expr}` nests too deep"));
+    }
+    if let Some(r) = expr.strip_prefix("format!(\"") {
+        let lit = r.strip_suffix("\")").ok_or(format!("`{expr}`: format! with arguments is outside the translated subset"))?;
+        if lit.matches('{').count() != 1 || !lit.ends_with("{type_id}") {
+            return Err(format!("`{expr}`: only `{{type_id}}` may be interpolated"));
+        }
+        match env.iter().rev().find(|e| e.0 == "type_id") {
+            Some((_, init)) if init == "ty.type_id()" => return Ok(lit.to_string()),
+            _ => return Err(format!("`{expr}`: `type_id` is not `ty.type_id()` here")),
+        }
+    }
+    if expr.chars().all(|c| c.is_alphanumeric() || c == '_') {
+        if let Some((_, init)) = env.iter().rev().find(|e| e.0 == expr) {
+            let init = init.clone();
+            return name_template(file, &init, env, depth + 1);
+        }
+        return Err(format!("unknown local `{expr}`"));
+    }
+    if let Some(h) = expr.strip_suffix("(ty)") {
+        if h.chars().all(|c| c.is_alphanumeric() || c == '_') {
+            let f = find::func(file, h, None)?;
+            if norm(&f.sig.inputs) != "ty:TyRef" || f.impl_of.is_some() {
+                return Err(format!("helper `{h}` is not a free function of `ty: TyRef`"));
+            }
+            let mut henv = vec![];
+            let n = f.block.stmts.len();
+            for (i, st) in f.block.stmts.iter().enumerate() {
+                if i + 1 == n {
+                    let tail = norm(st);
+                    if tail.ends_with(';') {
+                        return Err(format!("helper `{h}` has no tail expression"));
+                    }
+                    return name_template(file, &tail, &henv, depth + 1);
+                }
+                match pure_let(st) {
+                    Some(b) => henv.push(b),
+                    None => return Err(format!("helper `{h}`: statement outside the translated subset: {}", st.to_token_stream())),
+                }
+            }
+        }
+    }
+    Err(format!("name expression `{expr}` is outside the translated subset"))
+}
+
+/// `let x = <ty.type_id() | format!(…) | helper(ty)>;`: a binding without effect on what is emitted
+fn pure_let(st: &syn::Stmt) -> Option<(String, String)> {
+    let syn::Stmt::Local(l) = st else { return None };
+    let syn::Pat::Ident(id) = &l.pat else { return None };
+    let init = l.init.as_ref()?;
+    if init.diverge.is_some() || id.by_ref.is_some() {
+        return None;
+    }
+    let e = norm(&init.expr);
+    let helper_call = e.strip_suffix("(ty)").is_some_and(|h| !h.is_empty() && h.chars().all(|c| c.is_alphanumeric() || c == '_'));
+    if e == "ty.type_id()" || (e.starts_with("format!(\"") && e.ends_with("\")")) || helper_call {
+        return Some((id.ident.to_string(), e));
+    }
+    None
+}
+
+struct CallCtx<'a> {
+    file: &'a syn::File,
+    fname: &'a str,
+    env: Vec<(String, String)>,
+}
+
+/// the statements of a block of `call_drop_of` / `call_clone_function` → flat `CStmt`s;
+/// `rt` = the name the enclosing `if let Some(<rt>) = self.get_runtime_…(ty)` binds
+fn call_stmts(cx: &mut CallCtx, stmts: &[syn::Stmt], rt: Option<&str>, out: &mut Vec<String>) -> Result<(), String> {
+    let fname = cx.fname;
+    let is_drop = fname == "call_drop_of";
+    for st in stmts {
+        if is_hook(st) {
+            continue;
+        }
+        let s = norm(st);
+        if s == "letsize=self.layout_of(ty).unwrap().size()asu32;" {
+            out.push(".letSize".into());
+            continue;
+        }
+        if let Some(b) = pure_let(st) {
+            cx.env.push(b);
+            continue;
+        }
+        if s == "return;" {
+            out.push(".ret".into());
+            continue;
+        }
+        if !is_drop && s == "self.emit_memcpy(to.into(),from.into(),size);" {
+            out.push(".memcpy".into());
+            continue;
+        }
+        if let Some(x) = rt {
+            let want = if is_drop {
+                format!("self.emit(Instruction::Drop{{var:var.clone(),drop:Some({x}),}});")
+            } else {
+                format!("self.emit_clone(to.into(),from.into(),{x});")
+            };
+            if s == want {
+                out.push(".runtime".into());
+                continue;
+            }
+        }
+        let (pre, post, template, queue) = if is_drop {
+            ("self.emit(Instruction::Call{to:None,ctx:None,func:", ".into(),args:vec![var],return_ptr:None,});", "::generated::drop_{type_id}", "self.ctx.drops_to_generate.push_back(ty);")
+        } else {
+            ("self.emit(Instruction::Call{to:None,ctx:None,func:", ".into(),args:vec![from.clone().into()],return_ptr:Some(to),});", "::generated::clone_{type_id}", "self.ctx.clones_to_generate.push_back(ty);")
+        };
+        if let Some(f) = s.strip_prefix(pre).and_then(|r| r.strip_suffix(post)) {
+            let t = name_template(cx.file, f, &cx.env, 0).map_err(|e| format!("{fname}: {e}"))?;
+            if t != template {
+                return Err(format!("{fname}: calls `{t}`, expected `{template}`"));
+            }
+            out.push(".callGen".into());
+            continue;
+        }
+        if s == queue {
+            out.push(".enqueue".into());
+            continue;
+        }
+        // `if <cond> { … }` without else, or `match self.get_runtime_…(ty) { Some(x) => { … } None => {} }`
+        let want_rt = if is_drop { "self.get_runtime_drop(ty)" } else { "self.get_runtime_clone(ty)" };
+        if let syn::Stmt::Expr(syn::Expr::If(e), _) = st {
+            if e.else_branch.is_some() {
+                return Err(format!("{fname}: `if … else` is outside the translated subset: {}", st.to_token_stream()));
+            }
+            let c = norm(&e.cond);
+            let want_pred = if is_drop { "needs_drop" } else { "needs_clone" };
+            let mut bound: Option<String> = None;
+            let cond = if c == format!("!self.{want_pred}(ty)") {
+                ".notNeeds"
+            } else if c == "size==0" {
+                ".sizeZero"
+            } else if c == "size>0" || c == "size!=0" {
+                ".sizePos"
+            } else if let Some(x) = c.strip_prefix("letSome(").and_then(|r| r.strip_suffix(&format!(")={want_rt}"))) {
+                bound = Some(x.to_string());
+                ".hasRuntime"
+            } else {
+                return Err(format!("{fname}: condition outside the translated subset: {}", e.cond.to_token_stream()));
+            };
+            let mut body = vec![];
+            let mark = cx.env.len();
+            call_stmts(cx, &e.then_branch.stmts, bound.as_deref().or(rt), &mut body)?;
+            cx.env.truncate(mark);
+            out.push(format!(".ifc {cond} {}", body.len()));
+            out.extend(body);
+            continue;
+        }
+        if let syn::Stmt::Expr(syn::Expr::Match(m), _) = st {
+            if norm(&m.expr) == want_rt && m.arms.len() == 2 {
+                let mut some_arm = None;
+                let mut none_ok = false;
+                for a in &m.arms {
+                    let p = norm(&a.pat);
+                    if a.guard.is_some() {
+                        return Err(format!("{fname}: guarded arm"));
+                    }
+                    if p == "None" && matches!(norm(&a.body).as_str(), "{}" | "()") {
+                        none_ok = true;
+                    } else if let Some(x) = p.strip_prefix("Some(").and_then(|r| r.strip_suffix(')')) {
+                        some_arm = Some((x.to_string(), &a.body));
+                    }
+                }
+                if let (Some((x, body_expr)), true) = (some_arm, none_ok) {
+                    if let syn::Expr::Block(b) = &**body_expr {
+                        let mut body = vec![];
+                        let mark = cx.env.len();
+                        call_stmts(cx, &b.block.stmts, Some(&x), &mut body)?;
+                        cx.env.truncate(mark);
+                        out.push(format!(".ifc .hasRuntime {}", body.len()));
+                        out.extend(body);
+                        continue;
+                    }
+                }
+            }
+        }
+        return Err(format!("{fname}: statement outside the translated subset: {}", st.to_token_stream()));
+    }
+    Ok(())
+}
+
+fn call_fn(file: &syn::File, fname: &str, params: &str) -> Result<Vec<String>, String> {
+    let f = find::func(file, fname, None)?;
+    let sig = norm(&f.sig.inputs);
+    if sig != params {
+        return Err(format!("{fname}: parameters are `{sig}`, expected `{params}`"));
+    }
+    let mut out = vec![];
+    let mut cx = CallCtx { file, fname, env: vec![] };
+    call_stmts(&mut cx, &f.block.stmts, None, &mut out)?;
+    Ok(out)
+}
+
+/// the name `generate_drop` / `generate_clone` gives the function it generates must be the one
+/// `call_drop_of` / `call_clone_function` call
+fn generated_name(file: &syn::File, fname: &str, template: &str) -> Result<(), String> {
+    let f = find::func(file, fname, None)?;
+    let mut env = vec![];
+    for st in &f.block.stmts {
+        if let Some(b) = pure_let(st) {
+            env.push(b);
+            continue;
+        }
+        let s = norm(st);
+        if let Some(e) = s.strip_prefix("letident=").and_then(|r| r.strip_suffix(".into();")) {
+            let t = name_template(file, e, &env, 0).map_err(|e| format!("{fname}: {e}"))?;
+            if t != template {
+                return Err(format!("{fname}: names the generated function `{t}`, the call sites call `{template}`"));
+            }
+            return Ok(());
+        }
+    }
+    Err(format!("{fname}: `let ident = <name>.into();` not found"))
+}
+
+// -- needs_drop / needs_clone -------------------------------------------------------------------
+
+fn kpat(p: &syn::Pat) -> Result<&'static str, String> {
+    Ok(match norm(p).as_str() {
+        "Ty::Unit" => ".unit",
+        "Ty::Never" => ".never",
+        "Ty::Record(fields)" | "Ty::Record(_)" => ".record",
+        "Ty::Enum(variants)" | "Ty::Enum(_)" => ".enum",
+        "Ty::Primitive(Primitive::String)" => ".string",
+        "Ty::Primitive(_)" => ".primAny",
+        "Ty::List(_)" => ".list",
+        "Ty::Runtime(type_id)" | "Ty::Runtime(id)" | "Ty::Runtime(_)" => ".runtime",
+        "_" => ".wild",
+        o => return Err(format!("type pattern outside the translated subset: `{o}`")),
+    })
+}
+
+fn needs_arms(file: &syn::File, fname: &str) -> Result<Vec<String>, String> {
+    let f = find::func(file, fname, None)?;
+    let body = norm(&f.block);
+    if !body.starts_with("{letty=self.ctx.type_info.ty_pool.get(ty);matchty{") {
+        return Err(format!("{fname}: does not start with the type lookup followed by `match ty`"));
+    }
+    let ms = find::matches_on(&f.block, "ty");
+    if ms.len() != 1 || f.block.stmts.len() != 2 {
+        return Err(format!("{fname}: expected exactly `let ty = …; match ty {{ … }}`"));
+    }
+    let mut out = vec![];
+    for a in &ms[0].arms {
+        if a.guard.is_some() {
+            return Err(format!("{fname}: guarded arm"));
+        }
+        let b = norm(&a.body);
+        let arm = match b.as_str() {
+            "false" => ".no".to_string(),
+            "true" => ".yes".to_string(),
+            "{fields.iter().any(|&(_,t)|self.needs_clone(t))}" | "fields.iter().any(|&(_,t)|self.needs_clone(t))" => ".anyField .clone".into(),
+            "{fields.iter().any(|&(_,t)|self.needs_drop(t))}" | "fields.iter().any(|&(_,t)|self.needs_drop(t))" => ".anyField .drop".into(),
+            "variants.iter().flat_map(|v|&v.1).any(|&t|self.needs_clone(t))" => ".anyVariantField .clone".into(),
+            "variants.iter().flat_map(|v|&v.1).any(|&t|self.needs_drop(t))" => ".anyVariantField .drop".into(),
+            "{letm=self.ctx.runtime.get_runtime_type(*type_id).unwrap().movability();matches!(m,Movability::CloneDrop(..))}" => ".cloneDrop".into(),
+            o => return Err(format!("{fname}: arm body outside the translated subset: `{o}`")),
+        };
+        out.push(format!("({}, {arm})", kpat(&a.pat).map_err(|e| format!("{fname}: {e}"))?));
+    }
+    Ok(out)
+}
+
+/// `get_runtime_drop` / `get_runtime_clone`: the kinds with a `Some(…)` arm, and the field returned
+fn runtime_fn(file: &syn::File, fname: &str) -> Result<(Vec<String>, &'static str), String> {
+    let f = find::func(file, fname, None)?;
+    let body = norm(&f.block);
+    let ms = find::matches_on(&f.block, "ty");
+    if ms.len() != 1 {
+        return Err(format!("{fname}: expected one `match ty`"));
+    }
+    let mut kinds = vec![];
+    let mut rest_none = false;
+    for a in &ms[0].arms {
+        let k = kpat(&a.pat).map_err(|e| format!("{fname}: {e}"))?;
+        let b = norm(&a.body);
+        let b = b.strip_prefix('{').and_then(|x| x.strip_suffix('}')).unwrap_or(&b).to_string();
+        if b == "None" && k == ".wild" {
+            rest_none = true;
+        } else if b.starts_with("Some(") && !rest_none {
+            kinds.push(k.to_string());
+        } else {
+            return Err(format!("{fname}: arm outside the translated subset: `{b}`"));
+        }
+    }
+    if !rest_none {
+        return Err(format!("{fname}: no `_ => None` arm"));
+    }
+    let field = if fname == "get_runtime_drop" { "drop" } else { "clone" };
+    let other = if field == "drop" { "clone" } else { "drop" };
+    let tail = |fld: &str, var: &str| format!("letid=id?;letty=self.ctx.runtime.get_runtime_type(id).unwrap();ifletMovability::CloneDrop({var})=ty.movability(){{Some({var}.{fld})}}else{{None}}}}");
+    let which = if body.ends_with(&tail(field, "clone_drop")) {
+        field
+    } else if body.ends_with(&tail(other, "clone_drop")) {
+        other
+    } else {
+        return Err(format!("{fname}: what follows the `match ty` is outside the translated subset"));
+    };
+    if !body.starts_with("{letty=self.ctx.type_info.ty_pool.get(ty);letid=matchty{") {
+        return Err(format!("{fname}: does not start with the type lookup followed by `let id = match ty`"));
+    }
+    Ok((kinds, if which == "drop" { ".drop" } else { ".clone" }))
+}
+
+// -- generate_drop_body / generate_clone_body: which body a type gets --------------------------
+
+/// `(runtime shortcut first?, arms of the `match` on the type)`: the shortcut is
+/// `if let Some(f) = self.get_runtime_…(ty) { <emit the runtime function on the value>; self.emit_return(None); return; }`
+fn body_dispatch(file: &syn::File, fname: &str) -> Result<(bool, Vec<String>), String> {
+    let is_drop = fname == "generate_drop_body";
+    let f = find::func(file, fname, None)?;
+    let shortcut = if is_drop {
+        "ifletSome(drop_fn)=self.get_runtime_drop(ty){self.emit(Instruction::Drop{var:root_var.clone().into(),drop:Some(drop_fn),});self.emit_return(None);return;}"
+    } else {
+        "ifletSome(clone_fn)=self.get_runtime_clone(ty){self.emit(Instruction::Clone{to:return_var.into(),from:root_var.into(),clone_fn,});self.emit_return(None);return;}"
+    };
+    let mut seen_shortcut = false;
+    let mut arms = vec![];
+    let mut seen_match = false;
+    for st in &f.block.stmts {
+        if is_hook(st) {
+            continue;
+        }
+        let s = norm(st);
+        if s == shortcut {
+            if seen_match {
+                return Err(format!("{fname}: the runtime shortcut comes after the match"));
+            }
+            seen_shortcut = true;
+            continue;
+        }
+        if let syn::Stmt::Expr(syn::Expr::Match(m), _) = st {
+            if norm(&m.expr) != "self.ctx.type_info.ty_pool.get(ty)" || seen_match {
+                return Err(format!("{fname}: unexpected match on `{}`", norm(&m.expr)));
+            }
+            seen_match = true;
+            for a in &m.arms {
+                if a.guard.is_some() {
+                    return Err(format!("{fname}: guarded arm"));
+                }
+                let b = norm(&a.body);
+                let arm = if b == "{self.emit_return(None);}" {
+                    ".ret"
+                } else if is_drop && b == "{letfields=fields.clone();self.generate_drop_body_record(root_var,&fields);}" {
+                    ".recordLoop"
+                } else if !is_drop && (b == "{letfields=fields.clone();self.generate_clone_body_record(return_var,root_var,&fields)}" || b == "{letfields=fields.clone();self.generate_clone_body_record(return_var,root_var,&fields);}") {
+                    ".recordLoop"
+                } else if is_drop && b == "{letvariants=variants.clone();self.generate_drop_body_enum(root_var,&variants);}" {
+                    ".enumSwitch"
+                } else if !is_drop && b == "{letvariants=variants.clone();self.generate_clone_body_enum(return_var,root_var,&variants,);}" {
+                    ".enumSwitch"
+                } else if !is_drop && b == "{letsize=self.layout_of(ty).unwrap().size()asu32;self.emit_memcpy(return_var.into(),root_var.into(),size);self.emit_return(None);}" {
+                    ".memcpyRet"
+                } else if b.starts_with("{ice!(") {
+                    ".ice"
+                } else {
+                    return Err(format!("{fname}: arm body outside the translated subset: `{b}`"));
+                };
+                // `A | B` patterns are two arms with the same body
+                let pats: Vec<&syn::Pat> = match &a.pat {
+                    syn::Pat::Or(o) => o.cases.iter().collect(),
+                    p => vec![p],
+                };
+                for p in pats {
+                    arms.push(format!("({}, {arm})", kpat(p).map_err(|e| format!("{fname}: {e}"))?));
+                }
+            }
+            continue;
+        }
+        // the entry block and the variables the body works on
+        let setup = s.starts_with("self.blocks.push(Block{label:self.ctx.label_store.new_label(ident),instructions:Vec::new(),});")
+            || s == "letroot_var=Var{scope,kind:VarKind::Explicit(\"val\".into()),};"
+            || s == "letreturn_var=Var{scope,kind:VarKind::Return,};";
+        if !setup || seen_match {
+            return Err(format!("{fname}: statement outside the translated subset: {}", st.to_token_stream()));
+        }
+    }
+    if !seen_match {
+        return Err(format!("{fname}: no match on the type"));
+    }
+    Ok((seen_shortcut, arms))
+}
+
+/// `Lowerer::call_runtime`: when the vtable handed to a generic runtime function (lists) gets a
+/// clone / drop function for the element type, and which generated function that is
+fn vtable_fn(file: &syn::File, which: &str) -> Result<String, String> {
+    let f = find::func(file, "call_runtime", None)?;
+    let body = norm(&f.block);
+    let want = format!(
+        "let{which}_func_addr=ifself.needs_{which}(ty_ref){{lettmp=self.new_tmp(IrType::Pointer);self.emit(Instruction::FunctionAddress{{to:tmp.clone(),name:format!(\"::generated::{which}_{{type_id}}\").into(),}});self.ctx.{which}s_to_generate.push_back(ty_ref);tmp.into()}}else{{Operand::Value(crate::lir::IrValue::Pointer(0))}};");
+    if body.matches(&want).count() != 1 {
+        return Err(format!("call_runtime: `let {which}_func_addr = if self.needs_{which}(ty_ref) {{ <address of ::generated::{which}_<type> , requested> }} else {{ null }};` not found exactly once"));
+    }
+    if !body.contains("lettype_id=ty_ref.type_id();") {
+        return Err("call_runtime: `let type_id = ty_ref.type_id();` not found".into());
+    }
+    // the address is what is written into the vtable slot
+    let slot = format!("self.emit_write(dst,{which}_func_addr);");
+    if body.matches(&slot).count() != 1 {
+        return Err(format!("call_runtime: `{which}_func_addr` is not written into the vtable exactly once"));
+    }
+    Ok(format!("⟨.{which}, .{which}⟩"))
+}
+
+/// `call_clone_of`, arm (Pointer, Pointer): must hand the two addresses and the type to
+/// `call_clone_function` and do nothing else
+fn clone_of_pointer_arm(file: &syn::File) -> Result<(), String> {
+    let f = find::func(file, "call_clone_of", None)?;
+    let ms = find::matches_on(&f.block, "(to,from)");
+    if ms.len() != 1 {
+        return Err("call_clone_of: `match (to, from)` not found".into());
+    }
+    let want_pat = "(Location::Pointer{base:base_to,offset:offset_to,},Location::Pointer{base:base_from,offset:offset_from,},)";
+    let arm = ms[0].arms.iter().find(|a| norm(&a.pat) == want_pat).ok_or("call_clone_of: the (Pointer, Pointer) arm was not found")?;
+    let b = norm(&arm.body);
+    let a1 = "{letfrom=self.offset(base_from,offset_fromasu32);letto=self.offset(base_to,offset_toasu32);self.call_clone_function(from,to,ty);}";
+    let a2 = "{letto=self.offset(base_to,offset_toasu32);letfrom=self.offset(base_from,offset_fromasu32);self.call_clone_function(from,to,ty);}";
+    if b != a1 && b != a2 {
+        return Err(format!("call_clone_of: the (Pointer, Pointer) arm does something else than `call_clone_function(from, to, ty)` on the two addresses: `{b}`"));
+    }
+    if norm(&f.sig.inputs) != "&mutself,to:Location,from:Location,ty:TyRef" {
+        return Err("call_clone_of: unexpected parameters".into());
+    }
+    Ok(())
+}
+
 fn glueloops(repo: &Path) -> Result<String, String> {
     let drops = find::parse(repo, "src/lir/lower/drops.rs")?;
     let clones = find::parse(repo, "src/lir/lower/clones.rs")?;
@@ -203,7 +678,28 @@ fn glueloops(repo: &Path) -> Result<String, String> {
     out.push_str(&format!("/-- `generate_clone_body_record`: body of `for &(_, ty) in fields` -/\ndef cloneRecord : List Step := {}\n\n", list(&cr)));
     out.push_str(&format!("def cloneEnumPre : List Pre := {}\n\n", list(&cpre)));
     out.push_str(&format!("/-- `generate_clone_body_enum`: body of `for (ty, layout) in layouts` -/\ndef cloneEnum : List Step := {}\n\n", list(&ce)));
-    out.push_str("/-- the four loops as the current source has them -/\ndef prog : Prog :=\n  { dropRecord := dropRecord, dropEnumPre := dropEnumPre, dropEnum := dropEnum,\n    cloneRecord := cloneRecord, cloneEnumPre := cloneEnumPre, cloneEnum := cloneEnum }\n\nend RotoV.Gen.GlueLoops\n");
+    let dcall = call_fn(&drops, "call_drop_of", "&mutself,var:Operand,ty:TyRef")?;
+    let ccall = call_fn(&clones, "call_clone_function", "&mutself,from:Var,to:Var,ty:TyRef")?;
+    generated_name(&drops, "generate_drop", "::generated::drop_{type_id}")?;
+    generated_name(&clones, "generate_clone", "::generated::clone_{type_id}")?;
+    out.push_str(&format!("/-- `Lowerer::call_drop_of(var, ty)`, statement by statement -/\ndef dropCall : List CStmt := {}\n\n", list(&dcall)));
+    out.push_str(&format!("/-- `Lowerer::call_clone_function(from, to, ty)`, statement by statement -/\ndef cloneCall : List CStmt := {}\n\n", list(&ccall)));
+    out.push_str(&format!("/-- `Lowerer::needs_drop`: the arms of `match ty` -/\ndef needsDropArms : List (KPat × NeedArm) := {}\n\n", list(&needs_arms(&drops, "needs_drop")?)));
+    out.push_str(&format!("/-- `Lowerer::needs_clone`: the arms of `match ty` -/\ndef needsCloneArms : List (KPat × NeedArm) := {}\n\n", list(&needs_arms(&clones, "needs_clone")?)));
+    let (dk, df) = runtime_fn(&drops, "get_runtime_drop")?;
+    let (ck, cf) = runtime_fn(&clones, "get_runtime_clone")?;
+    out.push_str(&format!("/-- `get_runtime_drop`: the kinds looked up among the registered types, and the function of the `CloneDrop` pair it returns -/\ndef runtimeDropKinds : List KPat := {}\ndef runtimeDropField : Fn := {df}\n\n", list(&dk)));
+    out.push_str(&format!("/-- `get_runtime_clone` -/\ndef runtimeCloneKinds : List KPat := {}\ndef runtimeCloneField : Fn := {cf}\n\n", list(&ck)));
+    clone_of_pointer_arm(&clones)?;
+    let (dsc, darms) = body_dispatch(&drops, "generate_drop_body")?;
+    let (csc, carms) = body_dispatch(&clones, "generate_clone_body")?;
+    out.push_str(&format!("/-- `generate_drop_body`: the runtime shortcut comes first; then the arms of the match on the type -/\ndef dropBody : BodyFn := ⟨{dsc}, {}⟩\n\n", list(&darms)));
+    out.push_str(&format!("/-- `generate_clone_body` -/\ndef cloneBody : BodyFn := ⟨{csc}, {}⟩\n\n", list(&carms)));
+    let lower = find::parse(repo, "src/lir/lower.rs")?;
+    out.push_str(&format!("/-- `call_runtime`: the vtable of an element type gets a clone function when `needs_clone`, namely `::generated::clone_<type>` -/\ndef vtableClone : VtFn := {}\n\n", vtable_fn(&lower, "clone")?));
+    out.push_str(&format!("/-- `call_runtime`: … a drop function when `needs_drop`, namely `::generated::drop_<type>` -/\ndef vtableDrop : VtFn := {}\n\n", vtable_fn(&lower, "drop")?));
+    out.push_str("/-- `needs_drop` / `needs_clone` by name -/\ndef arms : Fn → List (KPat × NeedArm)\n  | .drop => needsDropArms\n  | .clone => needsCloneArms\n\n");
+    out.push_str("/-- the loops and the call decisions as the current source has them -/\ndef prog : Prog :=\n  { dropRecord := dropRecord, dropEnumPre := dropEnumPre, dropEnum := dropEnum,\n    cloneRecord := cloneRecord, cloneEnumPre := cloneEnumPre, cloneEnum := cloneEnum,\n    dropCall := dropCall, cloneCall := cloneCall }\n\nend RotoV.Gen.GlueLoops\n");
     Ok(out)
 }
 
